@@ -175,6 +175,7 @@ class ClassInfo:
         self.methods: dict[str, 'FuncInfo'] = {}
         self.fields: dict[str, Optional[ast.AST]] = {}   # name -> annotation node (or None)
         self.field_defaults: dict[str, ast.AST] = {}
+        self.field_values: dict[str, ast.AST] = {}       # `self.x = <value>` in __init__ (for untyped fields)
 
     def __repr__(self) -> str:
         return f'<class {self.qualname}>'
@@ -297,6 +298,8 @@ class Repo:
                         elif isinstance(s, ast.Assign) and len(s.targets) == 1:
                             tgt, ann = s.targets[0], None
                         if isinstance(tgt, ast.Attribute) and isinstance(tgt.value, ast.Name) and tgt.value.id == 'self':
+                            if getattr(s, 'value', None) is not None:
+                                ci.field_values.setdefault(tgt.attr, s.value)
                             if ann is not None or tgt.attr not in ci.fields:
                                 ci.fields[tgt.attr] = ann if ann is not None else ci.fields.get(tgt.attr)
             elif isinstance(n, (ast.If, ast.Try, ast.With)):
@@ -569,6 +572,10 @@ class Repo:
                 ci, ann = self.find_field(base, e.attr)
                 if ci is not None and ann is not None:
                     return self.ann_class(ci.module, ann)
+                if ci is not None and isinstance(ci.field_values.get(e.attr), ast.Call):
+                    c = self.resolve(ci.module, ci.field_values[e.attr].func)  # type: ignore[attr-defined]
+                    if c in self.classes:
+                        return c
                 meth = self.find_method(base, e.attr)
                 if meth is not None and any(d.endswith('property') for d in meth.decorators):
                     return self.ann_class(meth.module, meth.node.returns)  # type: ignore[attr-defined]
